@@ -4,7 +4,7 @@ ENGINES = [
     {'name': 'explore', 'path': 'lib/vt/explore.py',
      'serves_properties': ['C01', 'C02', 'C03', 'C04', 'C06', 'C07',
                            'C08', 'C09', 'C10', 'C11', 'C12', 'C13', 'C14',
-                           'C15', 'C16', 'C17', 'C18', 'C19', 'C20'],
+                           'C15', 'C17', 'C18', 'C19', 'C20'],
      'kind_free_text': 'bounded exhaustive enumeration driver: shards a finite '
                        'case space over 16 long-lived workers, runs the real '
                        'code on every case, determinism gate, known-finding '
@@ -16,6 +16,23 @@ NOTES = ('Every check executes the implementation in /repo/src (working tree) '
          'DESIGN.md.')
 
 CHECKS = [
+    {'id': 'C16', 'engine': 'explore', 'level': 'exploration',
+     'design_ref': 'DESIGN.md §4 C16',
+     'technique': 'bounded exhaustive enumeration of first-bad-item positions '
+                  'x bad-outcome kinds x option vectors on the real Runner '
+                  '(in-process parent and children), trace oracle per process',
+     'text': 'For every world of <=3 layers (independent, chained, with unit '
+             'layer) with <=2 (thorough: 3) tests each, the first bad item is '
+             'placed at every position with every bad-outcome kind (failure, '
+             'error, unexpected success, failing/erroring subtests, '
+             'setUp/tearDown/cleanup errors, two-event tests, SystemExit) or '
+             'is a layer setUp failure at every layer, under -x alone and '
+             'with --repeat, --shuffle, -j2 and resumed children; no test may '
+             'start after the bad item in that process, no layer may be set '
+             'up afterwards in a sequential run, all layers are torn down, '
+             'the summary exists and the verdict is failed.',
+     'note': 'Children are in-process real Runners (one schedule); post-mortem '
+             'mode (-D) is not combined with -x.'},
     {'id': 'C05', 'engine': 'explore', 'level': 'exploration',
      'design_ref': 'DESIGN.md §4 C05',
      'technique': 'bounded exhaustive enumeration of layer graphs x hook '
@@ -66,7 +83,7 @@ CHECKS = [
 ]
 
 _PENDING = ['C02', 'C03', 'C04', 'C06', 'C07', 'C08', 'C09',
-            'C10', 'C11', 'C12', 'C13', 'C14', 'C15', 'C16', 'C17', 'C18',
+            'C10', 'C11', 'C12', 'C13', 'C14', 'C15', 'C17', 'C18',
             'C19']
 _DONE = {c['id'] for c in CHECKS}
 NOT_APPLICABLE = [
